@@ -80,6 +80,30 @@ def collect(run, rng, nworlds, nqueries, mode, thresholds_fn, quality, nsteps=(4
                         targets = [t for t in targets if t[0] == "leaf"] or targets
                     kind, srch, leafno = rng.choice(targets)
                     nc = rng.random() < 0.5
+                    if sweep == "skip":
+                        # every (position, target) pair: fresh matcher, j steps, skip_to(t), one more step
+                        probe = mtrace.Recorder(mode)
+                        okp, mp = probe.call("matcher()", lambda: q.matcher(srch, srch.context(needs_current=nc)))
+                        ids = []
+                        if okp:
+                            okp, ids = probe.call("all_ids", lambda: [int(x) for x in mp.all_ids()])
+                        pairs = [(j, t) for j in range(min(len(ids or []), 6))
+                                 for t in range(ids[j] + 1, srch.reader().doc_count_all() + 2)]
+                        if len(pairs) > 40:
+                            pairs = rng.sample(pairs, 40)
+                        for j, t in pairs:
+                            rec = mtrace.Recorder(mode)
+                            ok, m = rec.call("matcher()", lambda: q.matcher(srch, srch.context(needs_current=nc)))
+                            if ok:
+                                mtrace.run_skip(rec, m, j, t)
+                            ev = rec.finish()
+                            trs.append(ev)
+                            run.count(len(ev))
+                            meta.append({"q": aq, "target": kind, "leaf": leafno, "needs_current": nc, "weighting": wname,
+                                         "plan": plan, "idx": idx, "matcher": type(m).__name__ if ok else None,
+                                         "tree": repr(m)[:4000] if ok else "", "mode": mode, "program": rec.program,
+                                         "adocs": adocs, "blocklimit": w.blocklimit, "inlinelimit": il, "quality": quality})
+                        continue
                     if sweep:
                         # one short trace per threshold: fresh matcher, a few steps, skip_to_quality(threshold)
                         probe = mtrace.Recorder(mode)
@@ -243,7 +267,37 @@ def check(run):
                              qgen=c12.stepped_query, plangen=c12.stepped_plan, blocklimits=(1, 2, 3, 4, None))
     judge_traces(run, "C11", trs3, meta3, "c11-stepped")
     report_notimpl(run, meta3)
+    # parent/child matchers on their own (and under one connective), on longer segments: skip_to targets fall on
+    # parents, on children of wanted and of unwanted parents, behind the last parent
+    def nestedq(r):
+        aq = world.rand_nested_query(r)
+        if r.random() < 0.3:
+            other = world.rand_query(r, 0, scored_only=True)
+            op = r.choice(["and", "or", "andnot"])
+            aq = {"op": "andnot", "a": aq, "b": other} if op == "andnot" else \
+                {"op": op, "kids": [aq, other] if r.random() < 0.5 else [other, aq], "b4": 4}
+        return aq
+    trs4, meta4, cases4 = collect(run, rng, 6 if quick else 50, 20 if quick else 30, "exact", lambda rec, m: (0,),
+                                  quality=False, ndocs=(6, 16), nsteps=(4, 12),
+                                  docgen=lambda r, n: world.family_docs(r, n) if r.random() < 0.5 else
+                                  {"k%d" % i: world.rand_doc(r) for i in range(n)},
+                                  qgen=lambda r: world.family_query(r) if r.random() < 0.5 else nestedq(r))
+    judge_traces(run, "C11", trs4, meta4, "c11-nested")
+    report_notimpl(run, meta4)
+    # ... and every (position, target) pair of skip_to on them, from a fresh matcher
+    fplan = lambda r, adocs: [("commit", sorted(adocs), {"merge": False})]
+    trs5, meta5, _ = collect(run, rng, 4 if quick else 30, 6 if quick else 10, "exact", lambda rec, m: (0,),
+                             quality=False, ndocs=(6, 14), docgen=world.family_docs, qgen=world.family_query,
+                             plangen=fplan, sweep="skip")
+    judge_traces(run, "C11", trs5, meta5, "c11-nested-skips")
+    report_notimpl(run, meta5)
     from harness.props import c01
+    nbase = len(meta)
+    meta = meta + meta4
+    for c in cases4:
+        for qo in c["qs"]:
+            qo["t"] += nbase
+    cases = cases + cases4
     rejects = qobs.judge(run, cases)
     for ci, qi, oi, exp in rejects:
         qo = cases[ci]["qs"][qi]
